@@ -42,6 +42,12 @@ type State struct {
 	heap   map[string]*HeapV
 	alloc  Term
 	defers map[*ssa.Defer]Term // site -> Bool "registered and pending"
+	owned  map[string]ownedCell // cells allocated by the running activations whose address has not been given away
+}
+
+type ownedCell struct {
+	addr Term
+	comp string
 }
 
 func (s *State) copy() *State {
@@ -52,7 +58,41 @@ func (s *State) copy() *State {
 	for k, v := range s.defers {
 		n.defers[k] = v
 	}
+	n.owned = make(map[string]ownedCell, len(s.owned))
+	for k, v := range s.owned {
+		n.owned[k] = v
+	}
 	return n
+}
+
+// keepOwned: predicate "key is the address of a cell of component comp that is still owned".
+func (s *State) keepOwned(comp string) func(key []Term) Term {
+	var addrs []Term
+	for _, k := range sortedKeys(s.owned) {
+		if s.owned[k].comp == comp {
+			addrs = append(addrs, s.owned[k].addr)
+		}
+	}
+	if len(addrs) == 0 {
+		return nil
+	}
+	return func(key []Term) Term {
+		var alts []Term
+		for _, a := range addrs {
+			alts = append(alts, Eq(key[0], a))
+		}
+		return Or(alts...)
+	}
+}
+
+// havocCells replaces a non-value shared component by a fresh version that keeps owned cells.
+func (tr *Tr) havocCells(st *State, c *Component, hint string) {
+	prev := tr.heapOf(st, c)
+	if keep := st.keepOwned(c.name); keep != nil {
+		st.heap[c.name] = tr.heapFrame(prev, keep, hint+"_"+c.name)
+	} else {
+		st.heap[c.name] = tr.newHeapBase(c, hint+"_"+c.name)
+	}
 }
 
 type Tr struct {
@@ -87,6 +127,8 @@ type Tr struct {
 	usedContracts map[string]bool
 	closuresSeen []*Closure
 	lockMode  bool
+	inlineBudget int
+	isRoot    func(fn *ssa.Function) bool // obligations inside inlined copies of these are dropped
 }
 
 func (tr *Tr) declare(s string) { tr.decls = append(tr.decls, s) }
@@ -139,7 +181,7 @@ func (tr *Tr) comp(name string, keySorts []string, valSort string, value bool) *
 func isValueElem(t types.Type) bool {
 	// element / value types whose containers are lisp values (C02)
 	s := typeStr(t)
-	return s == "types.MalType" || s == "interface{}" || s == "any" || s == "struct{}"
+	return s == "types.MalType" || s == "struct{}"
 }
 
 func (tr *Tr) elemComp(elem types.Type) *Component {
@@ -243,6 +285,16 @@ type Act struct {
 	contract *FuncContract
 	phiOverride map[*ssa.Phi]Term
 	entryState *State
+	curPos   token.Pos
+	cur      *State
+	mergeRunDefers bool
+	pendingExits   []pendingExit
+}
+
+type pendingExit struct {
+	st  *State
+	b   *ssa.BasicBlock
+	idx int
 }
 
 type loopInfo struct {
@@ -289,10 +341,13 @@ func (a *Act) oblige(st *State, kind string, pos token.Pos, cond Term, goal Term
 	if goal == "true" {
 		return nil
 	}
-	loc, src := a.srcLine(pos)
-	if src == "" && a.parent != nil {
-		// synthetic position: attribute to the call site
+	if a.parent != nil && a.tr.isRoot != nil && a.tr.isRoot(a.fn) {
+		return nil
 	}
+	if !pos.IsValid() {
+		pos = a.curPos
+	}
+	loc, src := a.srcLine(pos)
 	fname := fnName(a.fn)
 	base := fmt.Sprintf("%s/%s/«%s»", fname, kind, normSrc(src))
 	a.tr.oblCount[base]++
@@ -346,6 +401,9 @@ func (tr *Tr) runtimeErrVal() Term {
 func (a *Act) sortOf(t types.Type) string { return a.tr.eng.sorts.sortOf(t) }
 
 func (a *Act) val(v ssa.Value) Term {
+	if al, ok := v.(*ssa.Alloc); ok && a.cur != nil {
+		delete(a.cur.owned, a.prefix+al.Name())
+	}
 	if t, ok := a.vals[v]; ok {
 		return t
 	}
